@@ -19,7 +19,7 @@ pub enum U1 {
     #[token("€€x")] EuroEuroX,
 }
 pub static U1_DEF: Def = Def {
-    name: "U1", utf8: true, decide: no_callbacks,
+    name: "U1", utf8: true, decide: no_callbacks, log_callbacks: false, default_err: plain_default,
     pats: &[
         Pat { p: P::Lit("é".as_bytes()), prio: 4, act: Act::Tok(1) },
         Pat { p: P::Lit("€".as_bytes()), prio: 6, act: Act::Tok(2) },
@@ -29,7 +29,7 @@ pub static U1_DEF: Def = Def {
         Pat { p: P::Lit("€€x".as_bytes()), prio: 14, act: Act::Tok(6) },
     ],
 };
-corpus_impl!(U1, str, U1_DEF, |t| match t { U1::EAcute => 1, U1::Euro => 2, U1::Grin => 3, U1::Letters => 4, U1::EuroNotA => 5, U1::EuroEuroX => 6 }, |_e| 0, |_x| (0, true));
+corpus_impl!(U1, str, U1_DEF, |t| match t { U1::EAcute => 1, U1::Euro => 2, U1::Grin => 3, U1::Letters => 4, U1::EuroNotA => 5, U1::EuroEuroX => 6 }, |_e| 0, |_x| (0, true, 0, 0));
 
 // ---- U2: `.` (any char but \n) after a marker, quoted string with a negated class
 #[derive(Logos, Debug, PartialEq, Clone, Copy)]
@@ -40,14 +40,14 @@ pub enum U2 {
 }
 const NOT_QUOTE: P = P::Alt(&[P::Class(&[(0x00, 0x21), (0x23, 0x7F)]), NON_ASCII_CHAR]);
 pub static U2_DEF: Def = Def {
-    name: "U2", utf8: true, decide: no_callbacks,
+    name: "U2", utf8: true, decide: no_callbacks, log_callbacks: false, default_err: plain_default,
     pats: &[
         Pat { p: P::Cat(&[P::Lit(b"x"), ANY_BUT_LF]), prio: 4, act: Act::Tok(1) },
         Pat { p: P::Cat(&[P::Lit(b"\""), P::Star(&NOT_QUOTE), P::Lit(b"\"")]), prio: 4, act: Act::Tok(2) },
         Pat { p: P::Lit(b"x"), prio: 2, act: Act::Tok(3) },
     ],
 };
-corpus_impl!(U2, str, U2_DEF, |t| match t { U2::XDot => 1, U2::Str => 2, U2::X => 3 }, |_e| 0, |_x| (0, true));
+corpus_impl!(U2, str, U2_DEF, |t| match t { U2::XDot => 1, U2::Str => 2, U2::X => 3 }, |_e| 0, |_x| (0, true, 0, 0));
 
 // ---- E2: errors that die in the middle of a character: the end must be rounded up to the next boundary
 #[derive(Logos, Debug, PartialEq, Clone, Copy)]
@@ -57,11 +57,11 @@ pub enum E2 {
     #[token("😀!")] GrinBang,
 }
 pub static E2_DEF: Def = Def {
-    name: "E2", utf8: true, decide: no_callbacks,
+    name: "E2", utf8: true, decide: no_callbacks, log_callbacks: false, default_err: plain_default,
     pats: &[
         Pat { p: P::Lit("€".as_bytes()), prio: 6, act: Act::Tok(1) },
         Pat { p: P::Lit("a€b".as_bytes()), prio: 10, act: Act::Tok(2) },
         Pat { p: P::Lit("😀!".as_bytes()), prio: 10, act: Act::Tok(3) },
     ],
 };
-corpus_impl!(E2, str, E2_DEF, |t| match t { E2::Euro => 1, E2::AEuroB => 2, E2::GrinBang => 3 }, |_e| 0, |_x| (0, true));
+corpus_impl!(E2, str, E2_DEF, |t| match t { E2::Euro => 1, E2::AEuroB => 2, E2::GrinBang => 3 }, |_e| 0, |_x| (0, true, 0, 0));
